@@ -63,6 +63,25 @@ def same_group_twice(g):
     return doc, insts, "same-timed-group-twice"
 
 
+def nested_times_gap(g):
+    """a group with ONE child, both counted: `$and[x times n]` with `times {p..q}` is p..q repetitions of n x's, so the
+    run lengths are the multiples k*n (k in p..q) - NOT every length between p*n and q*n (the two counts do not fold
+    into one range)"""
+    x, pre, post = g.r.sample(["nop", "mov", "inc", "dec", "push", "pop"], 3)
+    n = g.pick([2, 2, 3, {"min": 2, "max": 2}])
+    nn = n if isinstance(n, int) else 2
+    p = g.pick([0, 1, 1, 2])
+    q = p + g.pick([1, 1, 2])
+    with_ops = g.chance(0.5)
+    child = {x: ["%rax"], "times": n} if with_ops else {x: {"times": n}}
+    op = g.pick(["$and", "$and", "$and_any_order", "$or"])
+    doc = {"pattern": [pre, {op: [child], "times": {"min": p, "max": q}}, post]}
+    total = g.int(max(0, p * nn - 1), q * nn + 1)
+    insts = ([("a000", pre, ["%rbx"])] + [("%x" % (0xa001 + 2 * i), x, ["%rax"]) for i in range(total)] +
+             [("a100", post, ["%rcx"]), ("a102", "ret", [])])
+    return doc, insts, "nested-times-%s" % ("multiple" if total % nn == 0 and p * nn <= total <= q * nn else "gap")
+
+
 def all_optional(ctx, n):
     """a rule all of whose items may be absent (`min: 0`, `times: 0`) is found on every listing, in every way of asking:
     the run of length 0 is within the bounds"""
@@ -89,8 +108,8 @@ def all_optional(ctx, n):
 def run(ctx, factor):
     rep = ctx.report
     all_optional(ctx, ctx.budget(16, 300) * factor)
-    for _ in range(ctx.budget(30, 600) * factor):
-        doc, insts, tag = same_group_twice(ctx.g)
+    for it in range(ctx.budget(50, 1000) * factor):
+        doc, insts, tag = same_group_twice(ctx.g) if it % 5 < 3 else nested_times_gap(ctx.g)
         o = patdiff.observe(ctx, doc, insts, modes=("bool", "all", "first"))
         usable = patdiff.correspondence(ctx, o)
         if usable:
